@@ -13,6 +13,8 @@ inductive TStep where
   | name                    -- `toAbsoluteName(l.token, o)` / `sprintName(rr.F)`
   | endStr (upper : Bool)   -- `endingToString(c, …)` / the field as it is (or through `strings.ToUpper`)
   | txt                     -- `endingToTxtSlice(c, …)` / `sprintTxt(rr.F)`
+  | txtPair                 -- two string fields: `sprintTxt([]string{rr.F, rr.G})` / the chunks of `endingToTxtSlice` shared out as HINFO and ISDN do
+  | txtFirst                -- one string field: `sprintTxt([]string{rr.F})` / the first chunk of `endingToTxtSlice` (UINFO)
   | blank                   -- `c.Next()` that skips the blank / `" "`
   | slurp                   -- `slurpRemainder(c)`
   | other                   -- an idiom outside the algebra
